@@ -66,6 +66,18 @@ def obligations(tier, seed):
         for qname in SEQS:
             if tier == 'quick' and sname != 'if' and qname != 'walk': continue
             add('commands/%s/%s' % (sname, qname), kind='cmds', script=script, seq=SEQS[qname])
+    # failing steps followed by rewind, on plain scripts and on transaction sessions (script switches advance the position without recording history: seed C15-5)
+    SEQS['fail-rewind'] = ['step', 'step', 'rewind', 'stack', 'print', 'rewind', 'rewind', 'step', 'step', 'step', 'rewind', 'print']
+    add('commands/fail-first/fail-rewind', kind='cmds', script='[OP_DUP OP_1]', seq=SEQS['fail-rewind'])
+    add('commands/fail-second/fail-rewind', kind='cmds', script='[OP_1 OP_VERIFY OP_VERIFY OP_1]', seq=SEQS['fail-rewind'])
+    import C12
+    def txargv(ss, spk):
+        tx, txin = C12.synth_pair(('raw', ss, spk)); return ['--tx=' + tx, '--txin=' + txin]
+    h160e = [0xb4, 0x72, 0xa2, 0x66, 0xd0, 0xbd, 0x89, 0xc1, 0x37, 0x06, 0xa4, 0x13, 0x2c, 0xcf, 0xb1, 0x6f, 0x7c, 0x3b, 0x9f, 0xcb]      # hash160 of the empty string
+    for sname, ss, spk in (('tx-empty-scriptsig-fail', [], [0x76]), ('tx-empty-scriptsig-ok', [], [0x51, 0x76]), ('tx-legacy-fail', [0x51], [0x88, 0x51]), ('tx-p2sh-empty-redeem', [0x51, 0x00], [0xa9, 0x14] + h160e + [0x87])):
+        for qname in ('fail-rewind', 'walk'):
+            if tier == 'quick' and qname == 'walk' and sname != 'tx-empty-scriptsig-fail': continue
+            add('commands/%s/%s' % (sname, qname), kind='cmds', argv=txargv(ss, spk), seq=SEQS[qname])
     # --- btcdeb main
     for n in (1,) if tier == 'quick' else (1, 2): add('btcdeb/script-sym%d' % n, kind='main', args=[('sym', n)], tty=(1, 0, 1), timeout_s=1500)
     for n in (1, 2): add('btcdeb/stack-sym%d' % n, kind='main', args=[('lit', '[OP_DUP OP_DROP]'), ('sym', n)], tty=(1, 0, 1))
@@ -148,7 +160,7 @@ def run(E, ob):
         return finish(E, ob, res, [r[0] for r in runs], dict(line=[c for c in chars], syms=syms))
     if k == 'cmds':
         CMD = {'step': '@_Z7fn_stepPKc', 'rewind': '@_Z9fn_rewindPKc', 'stack': '@_Z8fn_stackPKc', 'altstack': '@_Z11fn_altstackPKc', 'vfexec': '@_Z9fn_vfexecPKc', 'exec': '@_Z7fn_execPKc', 'tf': '@_Z5fn_tfPKc', 'print': '@_Z8fn_printPKc'}
-        states = [f for f in maindeb.run_main(E, [list(b'btcdeb'), list(ob['script'].encode())], (1, 1, 1), None, []) if f.result == ('exit', 1000)]
+        states = [f for f in maindeb.run_main(E, [list(b'btcdeb')] + [list(a.encode()) for a in (ob['argv'] if 'argv' in ob else [ob['script']])], (1, 1, 1), None, []) if f.result == ('exit', 1000)]
         if not states: res['status'] = 'inconclusive'; res['note'] = 'main() did not reach the prompt'; return res
         finals = []; syms = []; n = 0
         for ci, c in enumerate(ob['seq']):
